@@ -44,22 +44,52 @@ def showCfg (c : Cfg) : String :=
   s!"ra={hexS c.remoteAddr} {tr} uid={Hex.ofBytes c.uid} pm={hexS c.proxyMethod} enc={c.encryptionMethod} " ++
   s!"un={b01 c.unordered} pk={Hex.ofBytes c.serverPubKey} md={hexS c.mockDomain}"
 
+def parseRaw (m : KV) : Option RawConfig := do
+  pure {
+    serverName := ← getStr m "sn", proxyMethod := ← getStr m "pm", encryptionMethod := ← getStr m "em",
+    uid := ← getHex m "uid", publicKey := ← getHex m "pk", numConn := ← getInt m "nc",
+    localHost := ← getStr m "lh", localPort := ← getStr m "lp", remoteHost := ← getStr m "rh", remotePort := ← getStr m "rp",
+    alternativeNames := ← getList m "alt", udp := ← getBool m "udp", browserSig := ← getStr m "bs",
+    transport := ← getStr m "tr", cdnOriginHost := ← getStr m "ch", cdnWsUrlPath := ← getStr m "cp",
+    streamTimeout := ← getInt m "st", keepAlive := ← getInt m "ka" }
+
+def showLoaded : Loaded → String
+  | .parseError => "parse-error"
+  | .configError e => showErr e
+  | .ok c => showCfg c
+  | .nilDereference => "nil-config"
+
 def step (st : St) (cmd : String) (m : KV) : Option (St × String) :=
   match cmd with
   | "cfg.process" => do
-    let raw : RawConfig := {
-      serverName := ← getStr m "sn", proxyMethod := ← getStr m "pm", encryptionMethod := ← getStr m "em",
-      uid := ← getHex m "uid", publicKey := ← getHex m "pk", numConn := ← getInt m "nc",
-      localHost := ← getStr m "lh", localPort := ← getStr m "lp", remoteHost := ← getStr m "rh", remotePort := ← getStr m "rp",
-      alternativeNames := ← getList m "alt", udp := ← getBool m "udp", browserSig := ← getStr m "bs",
-      transport := ← getStr m "tr", cdnOriginHost := ← getStr m "ch", cdnWsUrlPath := ← getStr m "cp",
-      streamTimeout := ← getInt m "st", keepAlive := ← getInt m "ka" }
+    let raw ← parseRaw m
     match processRaw String.toLower raw with
     | .ok c => pure (st, showCfg c)
     | .error e => pure (st, showErr e)
   | "cfg.ssv" => do
     let s ← getStr m "s"
     pure (st, Hex.ofBytes (bytesOf (String.ofList (ssvToJson s.toList))))
+  | "cfg.doc" =>
+    -- a configuration file whose top-level JSON value is `null`, or not an object at all
+    match get m "kind" with
+    | some "null" => pure (st, showLoaded (loadDoc String.toLower .null))
+    | some "other" => pure (st, showLoaded (loadDoc String.toLower .other))
+    | _ => none
+  | "cfg.connect" => do
+    -- first connection with the processed configuration; `dhfails` = X25519 refuses the configured PublicKey
+    let raw ← parseRaw m
+    let dh ← getBool m "dhfails"
+    match processRaw String.toLower raw with
+    | .ok c => pure (st, match firstConnect (fun _ => dh) c with | .proceeds => "proceeds" | .panics => "panics")
+    | .error e => pure (st, showErr e)
+  | "cfg.sni" => do
+    -- is the server name of a connection the configured one, or one drawn for this connection?
+    let raw ← parseRaw m
+    match processRaw String.toLower raw with
+    | .ok c =>
+      let fresh := "\x00fresh"   -- not a name any configuration contains
+      pure (st, if sniOf String.toLower c fresh = fresh then "fresh" else "literal")
+    | .error e => pure (st, showErr e)
   | _ => none
 
 end Driver.D20
